@@ -1,10 +1,9 @@
-(* C10 - ISO transport protocol transfers complete intact or abort cleanly.  Statements fixed in Spec/TpSpec.v.
-   Two statements are FALSE of the model and of the C++ (refuted below, witnesses replayed through the harness, reported as findings):
-   control frames from a third station (foreign-cts) and the receive session nobody ends (stale-session).
-   tp_lib_to_lib_stmt is not yet proved in general; tp_lib_to_lib_partial covers every length with one byte pattern. *)
+(* C10 - ISO transport protocol transfers complete intact or abort cleanly.  Statements fixed in Spec/TpSpec.v; all of them are proved.
+   Two of them (control frames from a third station; a later transfer after a session its originator gave up) were false of the library
+   before the fixes b807027 and 7b28730 (+ 797643b); the former counterexamples are Examples below and now show the required behaviour. *)
 From Coq Require Import ZArith List Bool.
 From N2kV Require Import Base.ListAux Model.CanId Model.Sched Model.PgnClass Model.NodeDefs Model.NodeRxDefs Spec.TpSpec
-  Proofs.TpProofsA Proofs.TpProofsB Proofs.TpProofsC Proofs.TpProofsD.
+  Proofs.TpProofsA Proofs.TpProofsB Proofs.TpProofsC Proofs.TpProofsD Proofs.TpProofsE.
 Import ListNotations.
 Local Open Scope Z_scope.
 
@@ -16,8 +15,8 @@ Theorem C10_tp_cts_serves : tp_cts_serves_stmt.  Proof. exact tp_cts_serves. Qed
 Print Assumptions C10_tp_cts_serves.
 Theorem C10_tp_all_packets_once : tp_all_packets_once_stmt.  Proof. exact tp_all_packets_once. Qed.
 Print Assumptions C10_tp_all_packets_once.
-Theorem C10_tp_foreign_cts_refuted : ~ tp_foreign_cts_ignored_stmt.  Proof. exact tp_foreign_cts_refuted. Qed.
-Print Assumptions C10_tp_foreign_cts_refuted.
+Theorem C10_tp_foreign_ctrl_ignored : tp_foreign_ctrl_ignored_stmt.  Proof. exact tp_foreign_ctrl_ignored. Qed.
+Print Assumptions C10_tp_foreign_ctrl_ignored.
 Theorem C10_tp_ack_abort_timeout : tp_ack_abort_timeout_stmt.  Proof. exact tp_ack_abort_timeout. Qed.
 Print Assumptions C10_tp_ack_abort_timeout.
 Theorem C10_tp_timer : tp_timer_stmt.  Proof. exact tp_timer. Qed.
@@ -34,13 +33,12 @@ Theorem C10_tp_delivery_once : tp_delivery_once_stmt.  Proof. exact tp_delivery_
 Print Assumptions C10_tp_delivery_once.
 Theorem C10_tp_gap_no_delivery : tp_gap_no_delivery_stmt.  Proof. exact tp_gap_no_delivery. Qed.
 Print Assumptions C10_tp_gap_no_delivery.
-Theorem C10_tp_later_transfer_refuted : ~ tp_later_transfer_stmt.  Proof. exact tp_later_transfer_refuted. Qed.
-Print Assumptions C10_tp_later_transfer_refuted.
-Theorem C10_tp_lib_to_lib_partial : forall n, (9 <= n <= 223)%nat ->
-  let '(ok, drained, dl, pend) := l2l_run true false 130816 (pay n) in
-  ok = true /\ drained = true /\ pend = None /\ dl = [{| m_pri := 7; m_pgn := 130816; m_src := 22; m_dst := 50; m_data := pay n; m_tp := true |}].
-Proof. exact tp_lib_to_lib_partial. Qed.
-Print Assumptions C10_tp_lib_to_lib_partial.
+Theorem C10_tp_new_session_replaces : tp_new_session_replaces_stmt.  Proof. exact tp_new_session_replaces. Qed.
+Print Assumptions C10_tp_new_session_replaces.
+Theorem C10_tp_later_transfer : tp_later_transfer_stmt.  Proof. exact tp_later_transfer. Qed.
+Print Assumptions C10_tp_later_transfer.
+Theorem C10_tp_lib_to_lib : tp_lib_to_lib_stmt.  Proof. exact tp_lib_to_lib. Qed.
+Print Assumptions C10_tp_lib_to_lib.
 
 (* ---------- non-vacuity ---------- *)
 (* a 20-byte transfer, library as originator (64-bit scheduler build): RTS; the reference responder grants 2, pauses, grants 5; three data
@@ -92,3 +90,28 @@ Example C10_bam_spacing :
   ev5 = [dt_event 22 255 (pay 10) 2] /\ d_tp_msg (get_dev (rn a5) 0) = None.
 Proof. vm_compute. repeat split. Qed.
 Print Assumptions C10_bam_spacing.
+
+(* the former foreign-cts witness: device 22 has announced 20 bytes to station 50; a CTS and an Abort from station 51 do nothing; the CTS of
+   station 50 is served in full and its acknowledgement ends the session *)
+Example C10_foreign_ctrl_witness :
+  let a := node0 true 22 5000 5 in
+  let '(n1, _, _) := send_msg (rn a) (tpm 130816 50 (pay 20)) 0 in
+  let '(_, a2, ev2, _) := handle_tp (with_rn a n1) 60416 51 22 8 (cm_cts 2 1 130816) in
+  let '(_, a3, ev3, _) := handle_tp a2 60416 51 22 8 (cm_abort 1 130816) in
+  let '(_, a4, ev4, _) := handle_tp a3 60416 50 22 8 (cm_cts 5 1 130816) in
+  let '(_, a5, ev5, _) := handle_tp a4 60416 50 22 8 (cm_ack 20 3 130816) in
+  ev2 = [] /\ ev3 = [] /\ ev4 = dt_events 22 50 (pay 20) 0 3 /\ ev5 = [] /\ d_tp_msg (get_dev (rn a5) 0) = None.
+Proof. vm_compute. repeat apply conj; reflexivity. Qed.
+Print Assumptions C10_foreign_ctrl_witness.
+
+(* the former stale-session witness through ParseMessages: station 50 announces 20 bytes of PGN 130816 to device 22 and gives up; two seconds
+   later it transfers 20 bytes of PGN 130817: one delivery, PGN 130817, the payload; answers: CTS, CTS, EndOfMsgAck for PGN 130817 *)
+Example C10_later_transfer_witness :
+  let fr id d := {| r_id := id; r_len := 8; r_buf := d |} in
+  let ops := [RRx (fr (tp_cm_id 50 22) (cm_rts 20 255 130816)); RPoll; RBase (OTick 2000); RRx (fr (tp_cm_id 50 22) (cm_rts 20 255 130817)); RPoll] ++
+             map (fun k => RRx (fr (tp_dt_id 50 22) (dt_frame (pay 20) k))) [1; 2; 3]%nat ++ [RPoll; RPoll] in
+  concat (snd (rrun gf_none (node0 true 22 5000 5) ops)) =
+    [cm_event 22 50 (cm_cts 3 1 130816); cm_event 22 50 (cm_cts 3 1 130817); cm_event 22 50 (cm_ack 20 3 130817);
+     EvDeliver {| m_pri := 7; m_pgn := 130817; m_src := 50; m_dst := 22; m_data := pay 20; m_tp := true |}].
+Proof. vm_compute. reflexivity. Qed.
+Print Assumptions C10_later_transfer_witness.
